@@ -414,6 +414,18 @@ class MPSWorld(World):
         if op["plain"]:
             self._adopt(new)
         self.psi = apply_dense(self.psi, G, [i, j], self.dims)
+        if mode in ("nonlocal", "gate_nonlocal"):
+            # gate_nonlocal builds its sub-MPO with MatrixProductOperator.from_dense
+            # at that routine's own default cutoff (1e-10 on the discarded
+            # weight, i.e. up to ~1e-5 in the operator) whatever cutoff the
+            # caller passes for the application itself.  That is a gate-accuracy
+            # matter (C06), not a record matter: the model is re-synchronised
+            # to the state when the two agree to 1e-4, so that every later
+            # step is judged at full precision again.
+            got = np.asarray(self.mps.to_dense()).reshape(-1)
+            scale = max(1.0, float(np.abs(self.psi).max()))
+            if got.shape == self.psi.shape and maxdiff(got, self.psi) <= 1e-4 * scale:
+                self.psi = got.astype(self.psi.dtype) if np.iscomplexobj(self.psi) or not np.iscomplexobj(got) else got
         if mode == "no_swap_back" and abs(i - j) > 1:
             # documented: site j stays next to site i, the sites in between shift
             lo, hi = min(i, j), max(i, j)
@@ -458,7 +470,7 @@ class MPSWorld(World):
         mps = self.mps
         kw = self._record_kw(op, allow_cur_orthog=True)
         dims = [self.dims[w] for w in where]
-        st, mpo = self.call(lambda: self.qtn.MatrixProductOperator.from_dense(G, dims=dims, sites=where, L=self.L))
+        st, mpo = self.call(lambda: self.qtn.MatrixProductOperator.from_dense(G, dims=dims, sites=where, L=self.L, cutoff=0.0))
         if st == "rejected":
             raise Skip()
         f = lambda: mps.gate_with_submpo(mpo, where=where, method=op["method"], inplace=not op["plain"],
